@@ -676,14 +676,22 @@ def check_plate_transfer(src, dst, quantity, result, exc, op):
                 mech = 'C07:one_element_list_source:RuntimeError'
             elif list_slices and form == 'N->1' and et == 'RuntimeError':
                 mech = 'C07:one_element_list_destination:RuntimeError'
-            M.violate(['C07', 'C02'] if form == 'N->1' else ['C07'], 'WELLWISE', mech,
+            kf06 = mech in ('C07:list_slices_elementwise:IndexError', 'C07:one_element_list_source:RuntimeError',
+                            'C07:one_element_list_destination:RuntimeError')
+            tags = ['C07', 'C02'] if (form == 'N->1' and not kf06) else ['C07']
+            if mech.startswith('C07:legal_plate_transfer_refused:'):
+                tags = tags + ['C03']          # every per-well request fits, yet the request was refused
+            M.violate(tags, 'WELLWISE', mech,
                       {'form': form, 'quantity': quantity, 'src': F.describe(src), 'dst': F.describe(dst),
                        'exc': repr(exc)[:300]})
         else:
             if type(fold_exc) is not type(exc) and not (is_value_error(exc) and is_value_error(fold_exc)):
                 M.count('WELLWISE.refusal_type_differs')
             if not is_value_error(exc) and is_value_error(fold_exc):
-                M.violate(['C03'], 'FEAS', f'C03:refusal_not_ValueError:plate_transfer:{form}:{et}',
+                fkey = form
+                if list_slices and form in ('1->N', 'N->1') and et == 'RuntimeError':
+                    fkey = 'one_element_list'        # the refusal comes from finding KF06, whatever the feasibility
+                M.violate(['C03'], 'FEAS', f'C03:refusal_not_ValueError:plate_transfer:{fkey}:{et}',
                           {'quantity': quantity, 'exc': repr(exc)[:300], 'fold_exc': repr(fold_exc)[:300]})
         return
 
